@@ -162,6 +162,24 @@ M("rot-axis-not-normalised", ["C17"], "gaddlemaps/_auxilliary.py",
   "    norm_ax = axis / np.linalg.norm(axis)", "    norm_ax = axis / max(np.linalg.norm(axis), 1.0)")
 M("rot-sin-sign-inside-skew", ["C17"], "gaddlemaps/_auxilliary.py",
   "                     [norm_ax[1], -norm_ax[0], 0]], dtype=np.float64)", "                     [norm_ax[1], norm_ax[0], 0]], dtype=np.float64)")
+# ---- SystemGro ---------------------------------------------------------------------------
+M("sysgro-seek-hoisted-out-of-iteration", ["C12"], "gaddlemaps/components/_system.py",
+  """        for _, start, len_mol in self._molecules_ordered_all_gen():
+            self._open_fgro.seek_atom(start)
+            yield Residue([AtomGro(next(self._open_fgro))""",
+  """        self._open_fgro.seek_atom(0)
+        for _, start, len_mol in self._molecules_ordered_all_gen():
+            yield Residue([AtomGro(next(self._open_fgro))""")
+M("sysgro-boundary-by-name-only", ["C12"], "gaddlemaps/components/_system.py",
+  "            if atom.residname == prev_atom_residname:", "            if atom.resname == current_residue[0].resname:")
+M("sysgro-offset-one-block-per-kind", ["C12"], "gaddlemaps/components/_system.py",
+  "            for _ in range(ammount):\n                yield (index, start_atom, len_mol)\n                start_atom += len_mol",
+  "            for _ in range(ammount):\n                yield (index, start_atom, len_mol)\n                start_atom += len(self.different_molecules[0])")
+M("sysgro-minus-one-special-case-lost", ["C12"], "gaddlemaps/components/_system.py",
+  "                if index == -1:\n                    info = last(self._molecules_ordered_all_gen())\n                else:\n                    info = next(islice_extended(self._molecules_ordered_all_gen(),\n                                                index, index+1))\n                _, start, len_mol = info",
+  "                info = next(islice_extended(self._molecules_ordered_all_gen(),\n                                            index, index+1))\n                _, start, len_mol = info")
+M("grofile-seek-forgets-counter", ["C12"], "gaddlemaps/parsers/__init__.py",
+  "        self._current_atom = index\n        if index > self.natoms:", "        if index > self.natoms:")
 # ---- pbc --------------------------------------------------------------------------
 M("pbc-floor-instead-of-round", ["C19"], "gaddlemaps/components/_residue.py",
   "            vect -= np.round(vect)", "            vect -= np.floor(vect)")
